@@ -307,6 +307,14 @@ func (c *ownChecker) analyze(f *ssa.Function) bool {
 					// element store through IndexAddr: a write to the slice
 					if ia, ok := x.Addr.(*ssa.IndexAddr); ok {
 						noteWrite(sliceSource(ia.X, get, cellOf), site)
+						// an array inside a slice element (s[i].arr[j] = v) is a write to the slice as well
+						if up := elemOfSlice(ia.X); up != nil {
+							noteWrite(sliceSource(up.X, get, cellOf), site)
+						}
+					} else if up := elemOfSlice(x.Addr); up != nil {
+						// store into a field of a slice element, also through a pointer taken to the element
+						// (p := &s[i]; p.f = v): a write to the slice
+						noteWrite(sliceSource(up.X, get, cellOf), site)
 					} else {
 						if cellOf(x.Addr).merge(get(x.Val)) {
 							changed = true
@@ -345,6 +353,25 @@ func (c *ownChecker) analyze(f *ssa.Function) bool {
 		}
 	}
 	return changedSummary
+}
+
+// elemOfSlice follows an address up through field and array-element selections; when it reaches the address of a slice
+// element (IndexAddr over a slice) it returns that instruction, otherwise nil.
+func elemOfSlice(addr ssa.Value) *ssa.IndexAddr {
+	for depth := 0; depth < 16; depth++ {
+		switch a := addr.(type) {
+		case *ssa.FieldAddr:
+			addr = a.X
+		case *ssa.IndexAddr:
+			if _, isSlice := a.X.Type().Underlying().(*types.Slice); isSlice {
+				return a
+			}
+			addr = a.X
+		default:
+			return nil
+		}
+	}
+	return nil
 }
 
 // sliceSource: the abstract value of the slice an IndexAddr/Slice operates on (may be a pointer to an array).
